@@ -1,6 +1,8 @@
 mod c05;
+mod c06;
 mod c07;
 mod c08;
+mod c09;
 mod c17;
 mod c18;
 mod gen;
@@ -23,8 +25,11 @@ fn all_checks() -> Vec<&'static dyn Check> {
         &termchecks::TermCheck(termchecks::Flavor::C03),
         &termchecks::TermCheck(termchecks::Flavor::C04),
         &c05::C05,
+        &c06::C06,
         &c07::C07,
         &c08::C08,
+        &c09::C09,
+        &termchecks::TermCheck(termchecks::Flavor::C16),
         &c17::C17,
         &c18::C18,
         &termchecks::TermCheck(termchecks::Flavor::C19),
